@@ -71,6 +71,11 @@ type param struct {
 	ty    gtype
 	src   string
 	field string
+	// nil discipline (nil.go): opt = the pointer expression whose dereference `src` reads; the Lean parameter is
+	// `Option <ty>` (`none` = the pointer is nil). optTest is set on the derived substitutions `<opt> == nil` /
+	// `<opt> != nil` ("isNone" / "isSome").
+	opt     string
+	optTest string
 }
 
 type target2 struct {
@@ -78,7 +83,7 @@ type target2 struct {
 	recv   string
 	name   string // Go function ("" for kind const)
 	lean   string
-	kind   string // whole | cond | rhs | ret | field | varBlock | forStep | forCond | forPost | appendLoop | const | index
+	kind   string // whole | cond | rhs | ret | field | varBlock | forStep | forCond | forPost | appendLoop | const | index | arg0
 	sel    string // selector (meaning depends on the kind)
 	tok    string // rhs: assignment token (":=", "=", "|=", …)
 	lit    string // field: composite literal type
@@ -94,6 +99,15 @@ type target2 struct {
 	// receiver expressions; the callee's receiver-field parameters are passed on from the caller's
 	// parameters of the same name and type
 	methods []methodRecv
+	// nil discipline (nil.go): with nilsafe every pointer dereferenced by the translated fragment (inside the
+	// source texts of the parameters and in method calls) must be declared: nonnil = assumed non-nil by
+	// construction, nilable = may be nil, every dereference must be dominated by a nil check. selfCalls maps
+	// methods called on the receiver itself to the Lean name of their translation.
+	nilsafe   bool
+	nonnil    []ptrDecl
+	nilable   []ptrDecl
+	selfCalls map[string]string
+	goParams  []string // filled by genTyped: names of the Go parameters of the function
 }
 
 // methodRecv: `expr` (source text, e.g. "c.slot") is the struct field `field` ("Struct.field") of the
@@ -398,6 +412,23 @@ var targets2 = []target2{
 		params: []param{pf("maxHeightPrevoted", "uint32", "bftVotes.maxHeightPrevoted", "BFTVotes.maxHeightPrevoted")}},
 	{file: "pkg/consensus/liskbft/api.go", recv: "API", name: "SetGeneratorKeys", lean: "bftSetKeysNextHeight", kind: "rhs", sel: "nextHeight", tok: "=", want: "uint32",
 		params: []param{pf("height", "uint32", "bftVotes.blockBFTInfos[0].height", "BFTBlockHeader.height")}},
+
+	// ---- C15 (boundary): the VERIFIER's side of the limits the generator respects (Props/C15_Boundary.lean: the
+	// regenerated stop test of the generator and the regenerated reject test of verifyBlock are complementary at
+	// every value). verifyBlock must keep the shape `sum := 0; for … { sum += tx.Size() }; if sum > int(limit)`:
+	// any other shape (e.g. a decremented budget) is not found here and breaks the tie.
+	{file: "pkg/consensus/verify.go", recv: "Executer", name: "verifyBlock", lean: "verifyPayloadInit", kind: "rhs", sel: "transactionsSize", tok: ":=", want: "int"},
+	{file: "pkg/consensus/verify.go", recv: "Executer", name: "verifyBlock", lean: "verifyPayloadTotal", kind: "rhs", sel: "transactionsSize", tok: "+=", comb: true,
+		params: []param{p("transactionsSize", "int"), ps("size", "int", "tx.Size()")}},
+	{file: "pkg/consensus/verify.go", recv: "Executer", name: "verifyBlock", lean: "verifyPayloadTooLarge", kind: "cond", sel: "MaxTransactionsLength",
+		params: []param{p("transactionsSize", "int"), ps("maxLength", "uint32", "c.chain.MaxTransactionsLength()")}},
+	{file: "pkg/generator/generator.go", recv: "Generator", name: "forge", lean: "genSelectLimitArg", kind: "index", sel: "g.selectTransactionsByFee",
+		params: []param{ps("maxTransactionsSize", "uint32", "g.cfg.Genesis.MaxTransactionsSize")}},
+	{file: "pkg/generator/generator.go", recv: "Generator", name: "forge", lean: "genLimitLimitArg", kind: "arg0", sel: "g.limitTransactionsWithSize",
+		params: []param{ps("maxTransactionsSize", "uint32", "g.cfg.Genesis.MaxTransactionsSize")}},
+	{file: "pkg/blockchain/transaction.go", lean: "maxTransactionParamsSize", kind: "const", sel: "MaxTransactionParamsSize", want: "int"},
+	{file: "pkg/blockchain/transaction.go", recv: "Transaction", name: "Validate", lean: "txParamsTooLarge", kind: "cond", sel: "MaxTransactionParamsSize",
+		params: []param{ps("paramsLen", "int", "len(t.Params)")}},
 }
 
 // ---- typed expressions -------------------------------------------------------------------------
@@ -418,6 +449,7 @@ type tr2 struct {
 	locals map[string]bool // identifiers declared inside the Go function (they shadow package constants)
 	panics []string        // conditions under which the current statement panics
 	nopan  int             // > 0: inside the right operand of && / ||, where a panic would be conditional
+	nil    *nilState       // nil discipline of a `nilsafe` target (nil.go)
 }
 
 type pkgInfo struct {
@@ -623,6 +655,9 @@ func (t *tr2) convert(n ast.Node, v tv, to gtype) tv {
 
 func (t *tr2) expr(e ast.Expr) tv {
 	if pr, ok := t.subst[types.ExprString(e)]; ok {
+		if t.nil != nil || pr.opt != "" || pr.optTest != "" {
+			return t.nilSubst(e, pr)
+		}
 		return tv{s: lname(pr.name), ty: pr.ty}
 	}
 	if c, ct, ok := t.constEval(e); ok {
@@ -882,9 +917,15 @@ func (t *tr2) methodCall(x *ast.CallExpr) (tv, bool) {
 		return tv{}, false
 	}
 	recvText := types.ExprString(se.X)
+	if lean, ok := t.tg.selfCalls[se.Sel.Name]; ok && t.nil != nil && recvText == t.nil.recv {
+		return t.selfCall(x, se.Sel.Name, lean), true
+	}
 	for _, m := range t.tg.methods {
 		if m.expr != recvText {
 			continue
+		}
+		if t.nil != nil {
+			t.nilDeref(x, recvText, "method call "+recvText+"."+se.Sel.Name)
 		}
 		ft, ok := t.pkg.fieldType(m.field)
 		if !ok || ft != m.typ {
@@ -1274,6 +1315,9 @@ func (t *tr2) stmts(list []ast.Stmt, indent string, results []gtype) string {
 			return ok
 		}
 		if endsInReturn(body) {
+			if out, ok := t.nilMatch(x, rest, indent, results); ok {
+				return out
+			}
 			c := t.expr(x.Cond)
 			if c.ty != "bool" {
 				return t.fail(s, "non-boolean condition").s
@@ -1455,6 +1499,10 @@ func genTyped(repo string) (string, error) {
 		}
 		t := &tr2{fset: fset, pkg: pi, tg: tg, env: map[string]gtype{}, subst: map[string]param{}}
 		for _, pr := range tg.params {
+			if pr.opt != "" {
+				t.subst[pr.opt+" == nil"] = param{name: pr.name, ty: "bool", optTest: "isNone", opt: pr.opt}
+				t.subst[pr.opt+" != nil"] = param{name: pr.name, ty: "bool", optTest: "isSome", opt: pr.opt}
+			}
 			if pr.src != "" {
 				t.subst[pr.src] = pr
 			} else {
@@ -1481,13 +1529,20 @@ func genTyped(repo string) (string, error) {
 				return "", err
 			}
 			t.locals = declaredIn(fd)
+			if err := t.initNil(f, fd); err != nil {
+				return "", err
+			}
 		}
 		out := t.gen(f, fd)
 		if t.err != nil {
 			return "", t.err
 		}
 		b.WriteString(out)
+		if t.nil != nil {
+			nilFacts = append(nilFacts, t.nil.facts...)
+		}
 	}
+	b.WriteString(nilFactsLean())
 	b.WriteString("end LiskVerif.Gen\n")
 	return b.String(), nil
 }
@@ -1575,6 +1630,10 @@ func declaredIn(fd *ast.FuncDecl) map[string]bool {
 func (t *tr2) paramList(extra ...param) string {
 	out := []string{}
 	for _, pr := range append(append([]param{}, t.tg.params...), extra...) {
+		if pr.opt != "" {
+			out = append(out, "("+lname(pr.name)+" : Option "+leanTy(pr.ty)+")")
+			continue
+		}
 		out = append(out, "("+lname(pr.name)+" : "+leanTy(pr.ty)+")")
 	}
 	return strings.Join(out, " ")
@@ -1595,6 +1654,9 @@ func (t *tr2) header(fd *ast.FuncDecl, note string) string {
 		s := lname(pr.name) + " : " + string(pr.ty)
 		if pr.src != "" {
 			s += " = `" + pr.src + "`"
+		}
+		if pr.opt != "" {
+			s += " (`none` ⇔ `" + pr.opt + " == nil`)"
 		}
 		tys = append(tys, s)
 	}
@@ -1800,6 +1862,27 @@ func (t *tr2) gen(f *ast.File, fd *ast.FuncDecl) string {
 			return t.fail(fd, "index may panic").s
 		}
 		return t.def(fd, t.occ("index expression of `"+tg.sel+"[…]` / last argument of the call `"+tg.sel+"(…)`")+" ("+string(v.ty)+")", tg.lean, t.paramList(), leanTy(v.ty), "  "+v.s)
+
+	case "arg0":
+		// the first argument of the call `sel(…)`
+		cands := []ast.Expr{}
+		ast.Inspect(fd.Body, func(n ast.Node) bool {
+			if x, ok := n.(*ast.CallExpr); ok && types.ExprString(x.Fun) == tg.sel && len(x.Args) > 0 {
+				cands = append(cands, x.Args[0])
+			}
+			return true
+		})
+		v := t.translateSel(fd, "first argument of `"+tg.sel+"`", cands, func(e ast.Expr) tv { return t.expr(e) })
+		if t.err != nil {
+			return ""
+		}
+		if v.ty == untyped {
+			v = t.coerce(fd, v, "int")
+		}
+		if len(t.panics) > 0 {
+			return t.fail(fd, "argument may panic").s
+		}
+		return t.def(fd, t.occ("first argument of the call `"+tg.sel+"(…)`")+" ("+string(v.ty)+")", tg.lean, t.paramList(), leanTy(v.ty), "  "+v.s)
 
 	case "field":
 		cands := []ast.Expr{}
